@@ -1,3 +1,3 @@
 INIT Init
 NEXT Next
-INVARIANTS C09_FloodClose C09_Ends C09_OthersEnd C09_DoneCompletes C09_OnCloseOnce C09_NoPanic C09_StopServes C09_StopDone C09_StopOnCloseOnce C09_ClientEnds K09_ErrReported K09_NoCallbackWithoutClose K09_StreamPeerNotices
+INVARIANTS C09_CloseReturns C09_FloodClose C09_Ends C09_OthersEnd C09_DoneCompletes C09_OnCloseOnce C09_NoPanic C09_StopServes C09_StopDone C09_StopOnCloseOnce C09_ClientEnds K09_ErrReported K09_NoCallbackWithoutClose K09_StreamPeerNotices
